@@ -46,8 +46,10 @@ def shape_key(form):
     return "|".join("".join(map(str, sorted(g))) for g in sorted(map(sorted, form), key=lambda g: (len(g), g)))
 
 
-def build_chain(n, shape, tag):
-    """real DecayChain following the specification's tree (first daughter first, TopDown order)"""
+def build_chain(n, shape, tag, mirror=False):
+    """real DecayChain following the specification's tree (first daughter first, TopDown order);
+    mirror=True: the same particles and decays written the other way round (daughters swapped in every
+    decay, decays listed bottom-up) -- the same physical chain, another bookkeeping order"""
     from tf_pwa.amp import DecayChain, get_decay, get_particle
 
     full = fs(range(1, n + 1))
@@ -60,8 +62,38 @@ def build_chain(n, shape, tag):
     for T in tree:
         if T != full:
             part[T] = get_particle("R%s%s" % ("".join(map(str, sorted(T))), tag))
-    decays = [get_decay(part[fs(T)], [part[tree[fs(T)][0]], part[tree[fs(T)][1]]]) for T in shape["order"]]
+    if mirror:
+        decays = [get_decay(part[fs(T)], [part[tree[fs(T)][1]], part[tree[fs(T)][0]]]) for T in reversed(shape["order"])]
+    else:
+        decays = [get_decay(part[fs(T)], [part[tree[fs(T)][0]], part[tree[fs(T)][1]]]) for T in shape["order"]]
     return DecayChain(decays), part, tree, m0
+
+
+def round_trip(ha, part, ms, ct, ph, scale=1.0, random_z=False):
+    """masses (times a unit scale) and angles -> build_data -> cal_angle_from_momentum(random_z) -> find_variable"""
+    import tensorflow as tf
+
+    from tf_pwa.cal_angle import DecayGroup, cal_angle_from_momentum
+
+    ms_in = {part[T]: tf.convert_to_tensor(v * scale, tf.float64) for T, v in ms.items()}
+    p4 = ha.build_data(ms_in, [tf.convert_to_tensor(c) for c in ct], [tf.convert_to_tensor(x) for x in ph])
+    data = cal_angle_from_momentum(p4, DecayGroup([ha.decay_chain]), random_z=random_z)
+    ms2, ct2, ph2 = ha.find_variable(data)
+    return {k: np.asarray(v) for k, v in ms2.items()}, [np.asarray(c) for c in ct2], [np.asarray(x) for x in ph2]
+
+
+def rt_errors(inv, ms, ct, ph, got, scale=1.0):
+    """worst error (units of TOL) per variable kind between inputs and a round-trip result"""
+    ms2, ct2, ph2 = got
+    out = {"mass": 0.0, "costheta": 0.0, "phi": 0.0}
+    for k, v in ms2.items():
+        T = inv[k]
+        out["mass"] = max(out["mass"], float(np.max(np.abs(v / scale - ms[T]) / (TOL * np.abs(ms[T])))))
+    for j in range(len(ct)):
+        out["costheta"] = max(out["costheta"], float(np.max(np.abs(ct2[j] - ct[j]) / TOL)))
+        dphi = (ph2[j] - ph[j] + math.pi) % (2 * math.pi) - math.pi
+        out["phi"] = max(out["phi"], float(np.max(np.abs(dphi) / TOL)))
+    return {k: (v if np.isfinite(v) else float("inf")) for k, v in out.items()}
 
 
 def sample_masses(n, shape, tree, m0, size, rng, edge=None):
@@ -115,7 +147,9 @@ def run(ctx):
 
     from tf_pwa.data_trans.helicity_angle import HelicityAngle
 
-    n_shapes = n_disc = 0
+    n_shapes = n_disc = n_units = n_mirror = 0
+    worst_units = worst_mirror = 0.0
+    extra_step = {3: 1, 4: 3, 5: 26} if quick else {3: 1, 4: 1, 5: 1}
     worst = {"mass": 0.0, "costheta": 0.0, "phi": 0.0}
     for n in (3, 4, 5):
         full = fs(range(1, n + 1))
@@ -179,11 +213,62 @@ def run(ctx):
                 if bad:
                     ctx.violation("%s:%s:%s" % (key, mode, bad[0]), {"variable": bad[0], "where": bad[1], "error_in_units_of_1e-9": bad[2], "shape": sorted(map(sorted, sh["form"]))})
                     break
+            # ---- units x random_z, and mirrored bookkeeping order (subset in quick) ---------
+            if si % extra_step[n] == 0:
+                size = 32
+                ms = sample_masses(n, sh, tree, m0, size, rng)
+                ct = [rng.uniform(-1 + 1e-6, 1 - 1e-6, size) for _ in range(n - 1)]
+                ph = [rng.uniform(-math.pi, math.pi, size) for _ in range(n - 1)]
+                # (a) the parent is at rest in build_data's output: random_z=True (the configuration default) must be a
+                # no-op, whatever the unit of the momenta (GeV-like numbers and the same event in MeV-like numbers)
+                for unit, scale in (("x1", 1.0), ("x1000", 1000.0)):
+                    for rz in (True,) if unit == "x1" else (False, True):
+                        try:
+                            e = rt_errors(inv, ms, ct, ph, round_trip(ha, part, ms, ct, ph, scale, rz), scale)
+                        except Exception as ex:
+                            ctx.violation("%s:random_z=%s:%s:raise" % (key, rz, unit), {"error": repr(ex)[:400]})
+                            continue
+                        n_units += 1
+                        ctx.count(size, distinct_key=(key, "unit", unit, rz))
+                        worst_units = max(worst_units, max(e.values()))
+                        if max(e.values()) > 1:
+                            w = max(e, key=e.get)
+                            ctx.violation("%s:random_z=%s:unit-%s:%s" % (key, rz, unit, w), {"variable": w, "error_in_units_of_1e-9": e[w], "momentum_unit_scale": scale, "random_z": rz,
+                                                                                     "shape": sorted(map(sorted, sh["form"])), "note": "parent at rest: random_z must be a no-op"})
+                # (b) the same chain written in the other bookkeeping order, both in one process (either one first)
+                first_mirrored = (n_mirror % 2 == 1)
+                for mirrored in (first_mirrored, not first_mirrored):
+                    chain_m, part_m, _, _ = build_chain(n, sh, tag + "m", mirror=mirrored)
+                    inv_m = {v: k for k, v in part_m.items()}
+                    ha_m = HelicityAngle(chain_m)
+                    want = [(fs(T), tree[fs(T)][1 if mirrored else 0]) for T in (reversed(sh["order"]) if mirrored else sh["order"])]
+                    try:
+                        std_m = ha_m.decay_chain.standard_topology()
+                        tmap_m = std_m.topology_map(ha_m.decay_chain)
+                        got_angles = [(inv_m[tmap_m[d.core]], inv_m[tmap_m[d.outs[0]]]) for d in std_m]
+                        e = rt_errors(inv_m, ms, ct, ph, round_trip(ha_m, part_m, ms, ct, ph))
+                    except Exception as ex:
+                        ctx.violation("%s:mirrored=%s:raise" % (key, mirrored), {"error": repr(ex)[:400]})
+                        continue
+                    ctx.count(size, distinct_key=(key, "mirror", mirrored, first_mirrored))
+                    tagm = "%s:%s-order-%s" % (key, "mirrored" if mirrored else "declared", "first" if mirrored == first_mirrored else "second")
+                    if got_angles != want:
+                        ctx.violation(tagm + ":angle-variables", {"find_variable": [(sorted(a), sorted(b)) for a, b in got_angles], "chain": [(sorted(a), sorted(b)) for a, b in want]})
+                    elif max(e.values()) > 1:
+                        w = max(e, key=e.get)
+                        ctx.violation(tagm + ":" + w, {"variable": w, "error_in_units_of_1e-9": e[w], "shape": sorted(map(sorted, sh["form"]))})
+                    worst_mirror = max(worst_mirror, max(e.values()))
+                n_mirror += 1
             n_shapes += 1
             if si == 0:
                 ctx.sample({"n": n, "shape": sorted(map(sorted, sh["form"])), "variables": {"masses": sorted(map(sorted, spec_masses)), "angles(decay, daughter)": sorted((sorted(a), sorted(b)) for a, b in spec_angles)}, "events": nev})
         ctx.log("n=%d: %d shapes round-tripped, worst errors (units of 1e-9) %s" % (n, len(shapes[n]), {k: "%.1e" % v for k, v in worst.items()}))
     ctx.part("round_trip", shapes=n_shapes, variable_lists_compared=n_disc, events_per_shape=nev, worst_error_units_of_1e_9=max(worst.values()))
+
+    ctx.part("units_and_random_z", round_trips=n_units, worst_error_units_of_1e_9=worst_units)
+    ctx.part("mirrored_bookkeeping_order", shape_pairs=n_mirror, worst_error_units_of_1e_9=worst_mirror)
+    if n_units == 0 or n_mirror == 0:
+        raise tlc.MachineryError("unit / mirrored-order round trips did not run")
 
     # ---------------- sampled numeric probes (no discrete content) ---------------
     probes_dalitz(ctx, rng, 2000 if quick else 200000)
@@ -194,8 +279,10 @@ def run(ctx):
         "(invariants TypeOK, NeverStuck, Allowed, VarCount, ParentFirst; postcondition RuleComplete); per shape the variable list of "
         "find_variable/build_data is compared exactly and %d interior + %d near-edge (relative distance 1e-4 to the mass-range ends, "
         "|cos theta| = 1-1e-6, |phi| = pi-1e-6) samples are round-tripped to 1e-9 (phi modulo 2 pi). "
+        "On %s shapes the round trip is repeated with random_z=True (parent at rest: must be a no-op) on the same event in units x1 and x1000, "
+        "and for the chain written in the mirrored bookkeeping order (daughters swapped, decays bottom-up) before/after the declared one in the same process. "
         "Dalitz and LorentzVector identities are SAMPLED NUMERIC PROBES without discrete content. "
-        "distinct non-trivial = (shape, sampling mode) cells and probe families" % (nev, max(16, nev // 4))
+        "distinct non-trivial = (shape, sampling mode) cells and probe families" % (nev, max(16, nev // 4), "a subset of" if quick else "all")
     )
     ctx.assume("np.Inf shim (harness/prelude.py); tf_pwa imported from the working tree")
     ctx.assume("masses and angles are sampled (seeded); spins play no role in these transformations")
